@@ -24,12 +24,11 @@ double *doubleMalloc(size_t n)
     return p;
 }
 
-#if defined(DG_V_TRANS) || defined(DG_V_NOTRANS)
-/* The two solve variants: the argument objects are the TYPED, pairwise distinct, uninitialised (= nondeterministic) objects
- * below - exactly the objects the contract's FRESH clauses describe (in these variants the contract text says rw_ok for
- * them, macro DG_OBJ).  TOOL REASON (measured in unit sp_dtrsv): __CPROVER_is_fresh creates untyped byte arrays; every
- * dereference of a pointer loaded from such a block and every quantifier instance over it costs ~100 k clauses.
- * No assumption is made here: nothing is initialised except the pointer fields. */
+/* The argument objects are the TYPED, pairwise distinct, uninitialised (= nondeterministic) objects below - exactly the
+ * objects the contract's FRESH clauses describe (in the variants the contract text says rw_ok for them, macro DG_OBJ).
+ * TOOL REASON (measured in unit sp_dtrsv): __CPROVER_is_fresh creates untyped byte arrays; every dereference of a pointer
+ * loaded from such a block and every quantifier instance over it costs ~100 k clauses (the screen variant of this unit
+ * with is_fresh objects: 121 M clauses).  No assumption is made here: nothing is initialised except the pointer fields. */
 void h_dgstrs(void)
 {
     trans_t trans;
@@ -50,11 +49,3 @@ void h_dgstrs(void)
     L.Store = &Ls; U.Store = &Us; B.Store = &Bs; stat.ops = ops;
     dgstrs(trans, &L, &U, perm_c, perm_r, &B, &stat, &info);
 }
-#else
-/* all argument objects are created by the contract's preconditions (__CPROVER_is_fresh) */
-void h_dgstrs(void)
-{
-    trans_t trans; SuperMatrix *L, *U, *B; int *perm_c, *perm_r; SuperLUStat_t *stat; int *info;
-    dgstrs(trans, L, U, perm_c, perm_r, B, stat, info);
-}
-#endif
